@@ -6,7 +6,7 @@ cd $wt || exit 2
 git checkout -q -- . ; git apply $patch || { echo "PATCH-DOES-NOT-APPLY $patch"; exit 2; }
 [ -f Cargo.lock ] || cp /repo/Cargo.lock .
 tag=$(basename $(dirname $patch))-$(basename $patch)
-export E57_REPO=$wt E57_EVIDENCE_DIR=/tmp/e57-matrix-ev/$(basename $wt) E57_REPLAY_DIR=/tmp/e57-matrix-ev/$(basename $wt)/replays
+export E57_TARGET_SUFFIX=-$(basename $wt) E57_REPO=$wt E57_EVIDENCE_DIR=/tmp/e57-matrix-ev/$(basename $wt) E57_REPLAY_DIR=/tmp/e57-matrix-ev/$(basename $wt)/replays
 cd /verif
 for p in "$@"; do
   out=$(./check $p 2>&1); rc=$?
